@@ -192,12 +192,25 @@ def r3(ctx, rep):
     rep.check(second is not None and h == f"filter_of_conditions({second}.pluck(|_c0| _c0.into_filter()), ctx)?", "having", f"Select.having (HAVING) must be built from the filters AFTER the aggregate; found `{h}`", file=f["file"], line=f["l"], fn=f["path"])
     rep.check(sel is not None and "selection" in sel and "having" in sel, "select-fields", "the Select must carry a selection and a having field", file=f["file"], line=f["l"], fn=f["path"])
     a = syn.fn("gen_query::all", crate="prqlc")
-    st = None
+    # by role: inside the loop that takes one more condition (`while let Some(e) = <list>.pop()` / a for loop / a fold), the accumulator is
+    # re-built as Operator { name: "std.and" (literal or constant), args: [<that condition>, <accumulator>] } - conditions are popped from the
+    # end, so the earlier one goes first
+    from synq import const_str
+    ok, st = False, None
     for n in walk(a["body"]):
         if n.get("k") == "struct" and last_seg(n["p"]) == "Operator":
-            st = {x: show(y) for x, y in n["f"]}
-    rep.check(st is not None and st.get("name") == "'std.and'.to_string()" and st.get("args") == "vec!(expr, condition)", "and",
-              f"several conditions must be joined with std.and, earlier condition first; found {st}", file=a["file"], line=a["l"], fn=a["path"])
+            d = dict(n["f"])
+            name = const_str(syn, a, d.get("name"))
+            args = d.get("args")
+            elems = [show(x) for x in (args.get("a") or args.get("e") or [])] if isinstance(args, dict) else []
+            st = {"name": name, "args": elems}
+            # the accumulator is the variable this Operator is assigned to; the other operand is bound by the enclosing loop pattern
+            acc = None
+            for asg in walk(a["body"]):
+                if asg.get("k") == "assign" and any(x is n for x in walk(asg["rhs"])):
+                    acc = show(asg["lhs"])
+            ok = name == "std.and" and len(elems) == 2 and acc is not None and elems[1] == acc and elems[0] != acc
+    rep.check(ok, "and", f"several conditions must be joined with std.and, earlier condition first (args: [the condition just taken, the accumulated one]); found {st}", file=a["file"], line=a["l"], fn=a["path"])
 
 
 def show_pat_any(node):
